@@ -641,7 +641,13 @@ impl Open for VirtualSystem {
         flags: EnumSet<OpenFlag>,
         mode: Mode,
     ) -> impl Future<Output = Result<Fd>> + use<> {
-        let resolution = self.resolve_file(path, access, flags, mode);
+        // POSIX: no files shall be created or modified if open fails, so make
+        // sure a file descriptor is available before touching the file system.
+        let resolution = if self.current_process().can_open_fd() {
+            self.resolve_file(path, access, flags, mode)
+        } else {
+            Err(Errno::EMFILE)
+        };
         let system = self.clone();
 
         async move {
